@@ -268,7 +268,12 @@ def gen_openml(rng, index):
             d = rng.randrange(n_data)
             src = ["task", tasks[d]["id"]] if rng.random() < 0.3 else ["data", datasets[d]["id"]]
             reads.append({"src": src, "consume": weighted(rng, [("all", 4), (rng.randrange(0, 4), 1)]), "drop_missing": rng.random() < 0.7})
-            if rng.random() < 0.12 and src[0] == "data":
+            if rng.random() < 0.08 and src[0] == "data":
+                # the data set is EVALUATED with a learner whose first prediction coba cannot classify (two numbers for three actions) - the
+                # typical first mistake in a hand-written learner; the failure is caught and logged as ProcessTasks does, the caller goes on
+                reads[-1]["bad_learner"] = True
+                reads[-1]["consume"] = "all"
+            elif rng.random() < 0.12 and src[0] == "data":
                 # read as a LOGGED environment (Environments.from_openml(...).logged(policy)) and usually left early, as the experiment's peek does
                 reads[-1]["logged"] = True
                 reads[-1]["consume"] = weighted(rng, [(1, 3), (rng.randrange(1, 4), 1), ("all", 1)])
@@ -288,6 +293,23 @@ def gen_openml(rng, index):
 def _canon(row):
     from checks.c04 import canon_val
     return (canon_val(row), canon_val(getattr(row, "label", None)), getattr(row, "tipe", None))
+
+
+class _UnclearLearner:
+    def predict(self, context, actions):
+        return (0.5, 0.5)          # neither an action, nor (action, probability), nor a pmf over three actions
+
+    def learn(self, *a, **k):
+        pass
+
+
+def _evaluate_with_bad_learner(cb, r):
+    """What ProcessTasks does for one triple: evaluate, log the failure, carry on.  Returns the number of rows."""
+    env = cb.Environments.from_openml(data_id=r["src"][1], drop_missing=r["drop_missing"])[0]
+    try:
+        return len(list(cb.SequentialCB().evaluate(env, _UnclearLearner())))
+    except Exception as e:
+        return ("raises", type(e).__name__)
 
 
 def _source(read):
@@ -352,6 +374,12 @@ def run_openml(cfg, seed, choices, make_sim, run_sim, install_gzip_shim, sig_fn)
             before = len(server.delivered.get(cidx, []))
             it = None
             try:
+                if r.get("bad_learner"):
+                    import coba as cb
+                    sim.count("reach.openml_env_evaluated_with_unclear_predictions")
+                    n = _evaluate_with_bad_learner(cb, r)
+                    records.append((phase, cidx, ri, "logged", n, None))
+                    continue
                 if r.get("logged"):
                     import coba as cb
                     sim.count("reach.openml_read_through_logged_environment")
